@@ -230,6 +230,7 @@ pub fn h_stop_inside(run: &Run, doc: &Doc, out: &mut Vec<Violation>) {
                 Event::Report { loc, .. } | Event::Foreign { loc, .. } | Event::Merge { loc, .. } => Some(loc),
                 // the source being asked for the next entry of an object, or a member being decoded
                 Event::Deliver { at, .. } => Some(at),
+                Event::Pull { at, .. } => Some(at),
                 Event::Decode { path } => Some(path),
                 _ => None,
             };
